@@ -4,7 +4,7 @@ Helper lemmas for C16 (IP-diversity limits): the filter specification, per-bucke
 lemmas about (key, value) multisets of buckets and of the whole table.
 -/
 import Discv5Model.Model.KBucketSpec
-namespace Discv5.KB
+namespace Discv5.KB.Ip
 
 /-! ## the filter -/
 
@@ -247,4 +247,4 @@ theorem position_none (b : Bucket Val) (key : Nat) (h : b.position key = none) :
   rw [List.findIdx?_eq_none_iff] at h
   intro n hn; simpa using h n hn
 
-end Discv5.KB
+end Discv5.KB.Ip
